@@ -240,7 +240,7 @@ def _step_obl(o, name, root, n, m, d, sfx, tag, with_limit, cfg, tier):
                     d["WITH_LIMIT"] = 1
                     roots.append("vk_set_limit")
                 o.append(Obl(f"step{tag}_{name}_n{n}_m{m}{sfx}", "step.c", [U(roots, cfg, stubs=stubs)], defs=d, unwind=17, harness_unwind=17,
-                             maxcpy=16, mem_gb=16, timeout=(600 if tier == Q else 1800), weight=10 + m,
+                             maxcpy=16, mem_gb=(16 if name in HEAVY_OPS else 8), timeout=(600 if tier == Q else 1800), weight=10 + m,
                              allow_vacuous=bool(sfx)))
 
 
@@ -313,8 +313,12 @@ PICK_C09 = {("set_username", 1), ("set_password", 1), ("set_port", 2)}
 PICK_C19 = {("ed_update_hostname", 2), ("ed_authority_without_guard", 0), ("ed_clear_hostname", 0), ("ed_clear_password", 0), ("set_port", 2), ("set_password", 1), ("clear_port", 0)}
 
 
+LIGHT_OPS = ("clear_port", "clear_search", "clear_hash", "clear_pathname", "update_search", "set_username", "set_password", "set_port")
+
+
 def prop_C07(tier):
-    return inv_lemma(tier) + steps(tier, pick=PICK_C07)
+    # the heavy setters (shape case split, 250-630 s per case) are run once, under C03 (and under a limit, C09)
+    return inv_lemma(tier) + steps(tier, ops=LIGHT_OPS + EDITOR_OPS, pick=PICK_C07)
 
 
 def prop_C03(tier):
@@ -337,19 +341,19 @@ def url_fields(tier):
 
 def prop_C19(tier):
     # ada::url field-level steps (harness/url_fields.c): measured out of memory at 12 GB -> attempted in the thorough tier only
-    return inv_lemma(tier) + steps(tier, pick=PICK_C19) + (url_fields(tier) if tier != Q else [])
+    return inv_lemma(tier) + steps(tier, ops=LIGHT_OPS + EDITOR_OPS, pick=PICK_C19) + (url_fields(tier) if tier != Q else [])
 
 
 def prop_C05(tier):
     # canonical IPv6 serializer (part of "the href is a parse fixed point"): all addresses
-    return inv_lemma(tier) + pct_encode(tier)[:6] + steps(tier, pick={("set_username", 1), ("clear_hash", 0)}) + ipv6_ser(tier)
+    return inv_lemma(tier) + pct_encode(tier)[:6] + steps(tier, ops=("set_username", "clear_hash", "ed_update_hash", "ed_update_pathname"), pick={("set_username", 1), ("clear_hash", 0)}) + ipv6_ser(tier)
 
 
 def prop_C02(tier):
     """memory safety / no-throw / termination: CBMC's pointer, bounds, shift, division and overflow instrumentation, the
     'noreturn reached' assertions and the unwinding assertions of these obligations (exact-size input objects)"""
     sc = [o for o in scanners(tier) if any(f"_n{k}" == o.name[o.name.rfind("_n"):] for k in (15, 16, 17, 31, 32, 33)) or tier != Q]
-    return sc + pct_decode(tier) + [o for o in ipv4_kernels(tier) if "fast" in o.name or "number" in o.name] + steps(tier, pick={("clear_port", 0), ("clear_pathname", 0), ("set_port", 2)})
+    return sc + pct_decode(tier) + [o for o in ipv4_kernels(tier) if "fast" in o.name or "number" in o.name] + steps(tier, ops=("clear_port", "clear_pathname", "set_port", "ed_update_hostname", "ed_update_username"), pick={("clear_port", 0), ("clear_pathname", 0), ("set_port", 2)})
 
 
 def canparse(tier):
